@@ -204,19 +204,26 @@ class Simplifier(walkers.dag.DagWalker):
                             variable, value = value, variable
                         value_free_vars = (
                             self.environment.free_vars_oracle.get_free_variables(
-                                args[0]
+                                value
                             )
                         )
+                        # l_i == x can be eliminated only if x does not mention l_i
+                        # and every value of x is in the range of l_i
                         if (
                             variable.is_variable_exp()
                             and variable.variable() in vars
-                            and variable not in value_free_vars
+                            and variable.variable() not in value_free_vars
+                            and variable.variable().type.is_compatible(value.type)
                         ):
                             check_equality_simplification = True
                             new_arg = self.manager.And(
                                 *(a for j, a in enumerate(new_arg.args) if i != j)
                             )
                             new_arg = new_arg.substitute({variable: value})
+                            # the substitution can enable further simplifications
+                            new_arg = Simplifier(
+                                self.environment, self.problem
+                            ).simplify(new_arg)
                             vars.remove(variable.variable())
                             break
         if vars:
